@@ -339,18 +339,27 @@ def run_unit(unit, tier='quick', seed=0, keep=None, solver=None, rlimit=30):
                 res.inconclusive.append('resource limit: %s' % rl['message'][:200])
         # stability: a failing obligation is re-run with a second seed before it is believed
         if failures and not tool_errors:
-            run2 = run_verus(main_p, seed + 1, rlimit, solver, 8)
+            # (with the same budget escalation as the first run: a second run in which the solver gives up
+            # on the query says nothing, it must not count as `passes with the other seed`)
+            run2 = run_verus_robust(main_p, asm, unit, seed + 1, rlimit, solver, 8, retries)
             f2, te2, rl2 = classify(asm, run2, unit)
+            gave_up2 = set(slow_functions(run2)) if rl2 else set()
             if part_files:
                 with ThreadPoolExecutor(max_workers=14) as ex:
-                    pr2 = [ex.submit(run_verus, pp, seed + 1, rlimit, solver, 2) for (_, _, _, pp) in part_files]
+                    pr2 = [ex.submit(run_verus_robust, pp, pasm, unit, seed + 1, rlimit, solver, 2, retries) for (_, _, pasm, pp) in part_files]
                     for (pitem, pk, pasm, pp), fut in zip(part_files, pr2):
-                        pf2, _, _ = classify(pasm, fut.result(), unit)
+                        pf2, _, prl2 = classify(pasm, fut.result(), unit)
                         f2 += pf2
+                        if prl2:
+                            gave_up2 |= set(slow_functions(fut.result()))
             names2 = set(f['obligation'] for f in f2)
             res.seeds.append({'seed': seed + 1, 'solver': solver or 'z3', 'failed': sorted(names2), 'wall_s': round(run2['wall_s'], 2)})
-            stable = [f for f in failures if f['obligation'] in names2]
-            unstable = [f for f in failures if f['obligation'] not in names2]
+            # an obligation of a function on which the second run gave up (even with the bigger budget) is
+            # neither confirmed nor refuted by it: the first run's failure stands
+            def fn_of(ob):
+                return ob.split('::')[-2] if '::' in ob else ob
+            stable = [f for f in failures if f['obligation'] in names2 or any(g and g in f['obligation'] for g in gave_up2)]
+            unstable = [f for f in failures if f not in stable]
             for f in unstable:
                 res.inconclusive.append('unstable proof (fails with seed %d, passes with %d): %s' % (seed, seed + 1, f['obligation']))
             failures = stable
